@@ -106,6 +106,8 @@ def expected_for(fam: dict, model: Model, scopes: list) -> list:
     out = [None] * len(fam["steps"])
     for i, a in zip(idx, ans):
         out[i] = ctxrun.norm_model(a)
+        if out[i].get("v") == "identity":   # nothing to check: the undecorated function simply runs
+            out[i] = {"v": "accept"}
     return out
 
 
